@@ -137,11 +137,11 @@ c.params(self="obj:" + G, p="int", q="int", g="int").returns("none").setup("fres
 # the constructor calls two methods on the partially initialised object: they are executed inline here
 c.inline_callees = {G + ".password_to_scalar", G + ".scalar_to_bytes"}
 c.requires("q >= 1 and p >= 1 and spec.size_bytes(q) + 16 <= 8160")
-c.raises("AssertionError", "spec.powmod(g, q, p) != 1", name="generator-order", tags="C18")
-c.ensures("self.p == p and self.q == q and self.Base._e == g and self.Zero._e == 1", name="fields", tags="C18 C16")
-c.ensures("self.Base._group is self and self.Zero._group is self", name="elements-of-self", tags="C18")
-c.ensures("self.scalar_size_bytes == spec.size_bytes(q) and self.element_size_bytes == spec.size_bytes(p) and self.element_size_bits == spec.size_bits(p)", name="sizes", tags="C18 C15")
-c.ensures("spec.powmod(g, q, p) == 1", name="order-divides-q", tags="C18")
+c.raises("AssertionError", "spec.powmod(g, q, p) != 1", name="generator-order", tags="C18 C13")
+c.ensures("self.p == p and self.q == q and self.Base._e == g and self.Zero._e == 1", name="fields", tags="C01 C03 C04 C05 C13 C14 C15 C18 C16")
+c.ensures("self.Base._group is self and self.Zero._group is self", name="elements-of-self", tags="C01 C03 C04 C05 C13 C14 C15 C18")
+c.ensures("self.scalar_size_bytes == spec.size_bytes(q) and self.element_size_bytes == spec.size_bytes(p) and self.element_size_bits == spec.size_bits(p)", name="sizes", tags="C01 C03 C04 C05 C13 C14 C15 C18")
+c.ensures("spec.powmod(g, q, p) == 1", name="order-divides-q", tags="C01 C03 C04 C05 C13 C14 C15 C18")
 
 c = REG.contract(E + ".__eq__")
 c.params(self="obj:" + E, other="obj:%s;_group=$self._group" % E).returns("bool").pure()
